@@ -58,7 +58,7 @@ def is_sym(v):
 def fval(x: float):
     """Exact rational value of a Python float as a z3 Real."""
     fr = Fraction(x)
-    return z3.RealVal(str(fr.numerator)) / z3.RealVal(str(fr.denominator)) if fr.denominator != 1 else z3.RealVal(str(fr.numerator))
+    return z3.Q(fr.numerator, fr.denominator) if fr.denominator != 1 else z3.RealVal(str(fr.numerator))
 
 
 class Sym:
@@ -616,7 +616,7 @@ def real_q(q):
     q = Fraction(q)
     if q.denominator == 1:
         return z3.RealVal(str(q.numerator))
-    return z3.RealVal(str(q.numerator)) / z3.RealVal(str(q.denominator))
+    return z3.Q(q.numerator, q.denominator)
 
 
 def isclose(a, b, rel_tol=1e-09):
